@@ -18,7 +18,7 @@ void h_copy(void) {
   OBJ(Int, X); struct Int* x = MK(X, Int, AllocStack); int64_t in_v = nondet_long(); x->val = in_v;
   struct Int* y = copy(x);
   ASSERT((var)y != (var)x && (var)y == (var)&FRESH.v && cv_allocs == 1, "[C10] copy yields a new object");
-  ASSERT(HDR(y)->type == Int && ALLOC_IS(y, AllocHeap), "[C19] a copy carries the type of the original and is a heap object");
+  ASSERT(HDR(y)->type == Int && ALLOC_IS(y, AllocHeap), "[C10][C19] a copy carries the type of the original and is a heap object");
   ASSERT(y->val == in_v && x->val == in_v && cv_assigns == 1, "[C10] copy yields a value equal to the original and leaves the original alone");
 #ifndef CELLO_NGC
   ASSERT(cv_sets == 1, "a copy is a managed object");
